@@ -69,9 +69,12 @@ def call_example(entry, kwargs, wrapper="cvxpy"):
     fn = getattr(mod, entry["func"])
     n0 = len(bd.records)
     t0 = time.time()
+    import inspect
+    params = inspect.signature(fn).parameters
+    extra = {k: v for k, v in (("wrapper", wrapper), ("solver", "CLARABEL"), ("verbose", -1)) if k in params}
     with contextlib.redirect_stdout(io.StringIO()), warnings.catch_warnings():
         warnings.simplefilter("ignore")
-        out = fn(**kwargs, wrapper=wrapper, solver="CLARABEL", verbose=-1)
+        out = fn(**kwargs, **extra)
     recs = bd.records[n0:]
     statuses = [str(x["status"]).lower() for r in recs for x in r["inner"]]
     return out, statuses, time.time() - t0
@@ -144,7 +147,8 @@ def run_shard(spec):
             counters["skipped_not_optimal"] = counters.get("skipped_not_optimal", 0) + 1
             continue
         if variant is None:
-            ok, defect = judge(e["kind"], pepit, theory)
+            ok = ET.holds(e, pepit, theory, rtol=max(1e-3, e.get("rtol_hint") or 0.0))
+            defect = abs(pepit - theory) if (pepit is not None and theory is not None) else 0.0
             if ok is None:
                 counters["runs_without_reference"] = counters.get("runs_without_reference", 0) + 1
                 seen.add(e["name"])
